@@ -33,6 +33,11 @@ var funcSigsJSON []byte
 //go:embed fieldnames.json
 var fieldNamesJSON []byte
 
+// Package-level variables and constants with their types (load.RecordedGlobals).
+//
+//go:embed globals.json
+var globalsJSON []byte
+
 var recordedFieldNames map[string][]string
 
 var recordedParamNames map[string][]string
@@ -49,6 +54,9 @@ func init() {
 		panic("fieldnames.json: " + err.Error())
 	}
 	edt.FieldNames = func(k string) []string { return recordedFieldNames[k] }
+	if err := json.Unmarshal(globalsJSON, &load.RecordedGlobals); err != nil {
+		panic("globals.json: " + err.Error())
+	}
 }
 
 // DumpParamNames writes the table for the current tree (all quick configurations).
@@ -56,6 +64,7 @@ func DumpParamNames(out string) {
 	tab := map[string][]string{}
 	sigs := map[string]string{}
 	fields := map[string][]string{}
+	globals := map[string][]string{}
 	for _, id := range []string{"amd64", "purego", "f32"} {
 		p, err := load.Load(id, load.Opts{SSA: true, NoControls: true})
 		if err != nil {
@@ -80,6 +89,17 @@ func DumpParamNames(out string) {
 				k := load.Rel(pk.Types) + "." + n
 				if _, seen := fields[k]; !seen {
 					fields[k] = names
+				}
+			}
+			for k, v := range load.DeclaredGlobals(pk.Types) {
+				dup := false
+				for _, x := range globals[k] {
+					if x == v {
+						dup = true
+					}
+				}
+				if !dup {
+					globals[k] = append(globals[k], v) // the type may differ per configuration (radix)
 				}
 			}
 			for k, v := range load.DeclaredFuncs(pk.Types) {
@@ -125,6 +145,11 @@ func DumpParamNames(out string) {
 		fmt.Fprintf(f, " %s: %s%s\n", kb, b, sep)
 	}
 	fmt.Fprintln(f, "}")
+	gb, _ := json.MarshalIndent(globals, "", " ")
+	if err := os.WriteFile(filepath.Join(filepath.Dir(out), "globals.json"), append(gb, '\n'), 0o644); err != nil {
+		fmt.Fprintln(os.Stderr, err)
+		os.Exit(2)
+	}
 	fb, _ := json.MarshalIndent(fields, "", " ")
 	if err := os.WriteFile(filepath.Join(filepath.Dir(out), "fieldnames.json"), append(fb, '\n'), 0o644); err != nil {
 		fmt.Fprintln(os.Stderr, err)
